@@ -1464,9 +1464,12 @@ class GE(G):
               [(ev, ccls, [("print", ("interp", [n + " caught ", ("call", ("prop", ("call", ("prop", ("var", ev), "cls"), []), "name"), []),
                                                  " ", ("var", loc)]))])])
         send = ("expr", ("send", ("var", "c"), ("bin", "*", ("var", loc), ("num", 2.0))))
+        # (what the worker does after its send is silent: whether it runs before or after main prints what it received
+        # is the scheduler's business)
+        quiet = ("try", src, [(ev, ccls, [("expr", ("assign", ("var", loc), ("bin", "+", ("var", loc), ("num", 1.0))))])])
         order = self.i(0, 2)
         body = [("let", loc, ("bin", "+", ("var", "p"), ("num", 1.0)))]
-        body += [tr, send] if order == 0 else ([send, tr] if order == 1 else [tr, send, tr])
+        body += [tr, send] if order == 0 else ([send, quiet] if order == 1 else [tr, send, quiet])
         out = [("let", ch, ("chan", ("num", float(self.i(1, 3))))), ("fn", n, ["c", "p"], body)]
         if self.chance(50):
             mv = self.fresh("me")
